@@ -16,13 +16,13 @@ variable {img : Image} {K : Ctx}
 /-- after `return`: control is back in the caller (one past the recorded return address), the
 callee's call frame and loop frames are gone, everything else is as the source says -/
 structure RetPost (K : Ctx) (σ' : S) (t : State) : Prop where
-  ctx : ∃ ret rest, K.ret = some (ret, rest) ∧ t.pc = ((ret + 1 : Nat) : Int) ∧ t.stack = rest
+  ctx : ∃ ret rest evc, K.ret = some (ret, rest, evc) ∧ t.pc = ((ret + 1 : Nat) : Int) ∧ t.stack = rest
   running : t.status = .running
-  eval : t.eval = []
+  eval : t.eval = K.base
   unnamed : t.unnamed = []
   routines : σ'.routines = K.routines
   status : σ'.vm.status = .running
-  umode : ∃ m, σ'.vm.regs .unitMode = .mode m
+  umode : RegsOk σ'.vm.regs
   globals : σ'.vm.globals = t.globals
   constants : σ'.vm.constants = t.constants
   lights : σ'.vm.lights = t.lights
@@ -33,41 +33,41 @@ structure RetPost (K : Ctx) (σ' : S) (t : State) : Prop where
   regs : ∀ r, r ≠ .result → σ'.vm.regs r = t.regs r
 
 /-- the `RETURN` instruction, at any loop depth of a routine -/
-theorem exec_ret {stk : List Frame} {σ : S} {s : State} {pc : Nat} (h : Sim K stk σ s)
+theorem exec_ret {stk : Stk} {σ : S} {s : State} {pc : Nat} (h : Sim K stk σ s)
     (hpc : s.pc = (pc : Int)) (hi : img.code[pc]? = some .ret) (ret : Nat) (rest : List Frame)
-    (hK : K.ret = some (ret, rest)) (x : Val) :
+    (evc : List Val) (hK : K.ret = some (ret, rest, evc)) (x : Val) :
     Exec img s (RetPost K { σ with result := x }) := by
   have hloc := h.locals.1
   rw [hK] at hloc
   cases hl : σ.locals with
   | none => rw [hl] at hloc; simp at hloc
   | some d =>
-    have hst : s.stack = stk ++ .call d ret :: rest := by
+    have hst : s.stack = stk.frames ++ .call d ret :: rest := by
       rw [h.stack, hl]; simp only [baseOf, hK]
-    have hret := C03_return_any_depth s stk d ret rest h.loops hst
-    have hret' : s.doReturn = { s with stack := rest, pc := (ret : Int), eval := [] } := by
+    have hret := C03_return_any_depth s stk.frames d ret rest h.loops hst
+    have hret' : s.doReturn = { s with stack := rest, pc := (ret : Int), eval := K.base } := by
       rw [hret]
       apply State.ext' <;> try rfl
-      show (match stk.getLast? with
+      show (match stk.frames.getLast? with
         | some (.loop _ hh) => trimEval s.eval hh
-        | _ => s.eval) = []
+        | _ => s.eval) = K.base
       rw [h.eval]
-      split <;> simp [trimEval]
+      exact h.evok.unwind
     apply Exec.step h.running
     apply Exec.done
-    rw [step_eq _ { s with stack := rest, pc := (ret : Int), eval := [] } h.running hpc hi rfl
+    rw [step_eq _ { s with stack := rest, pc := (ret : Int), eval := K.base } h.running hpc hi rfl
       (by simp only [execInstr]; exact hret') h.running]
-    exact ⟨⟨ret, rest, hK, by simp, rfl⟩, h.running, rfl, h.unnamed, h.locals.2, h.status, h.umode, h.globals,
-      h.constants, h.lights, h.trace, h.defaultColor, h.matrix, h.draws, h.regs⟩
+    exact ⟨⟨ret, rest, evc, hK, by simp, rfl⟩, h.running, rfl, h.unnamed, h.locals.2, h.status, h.umode,
+      h.globals, h.constants, h.lights, h.trace, h.defaultColor, h.matrix, h.draws, h.regs⟩
 
 def StmtRet (img : Image) (K : Ctx) (st : Stmt) (f : Nat) : Prop :=
-  ∀ (σ σ' : S) (s : State) (pc exit : Nat) (stk : List Frame),
+  ∀ (σ σ' : S) (s : State) (pc exit : Nat) (stk : Stk),
     Sim K stk σ s → s.pc = (pc : Int) → CodeAt img pc (resolve (genStmt st) pc exit) →
     execStmt f st σ = (.ret, σ') → Exec img s (RetPost K σ')
 
 /-- `return` / `return v` inside a routine -/
 theorem stmt_ret (f : Nat) (v : Option Rv) (hv : match v with | some rv => RvOK rv | none => True)
-    (ret : Nat) (rest : List Frame) (hK : K.ret = some (ret, rest)) :
+    (ret : Nat) (rest : List Frame) (evc : List Val) (hK : K.ret = some (ret, rest, evc)) :
     StmtRet img K (.ret v) (f + 1) := by
   intro σ σ' s pc exit stk sim hpc hc h
   simp only [genStmt, resolve_ins] at hc
@@ -83,7 +83,7 @@ theorem stmt_ret (f : Nat) (v : Option Rv) (hv : match v with | some rv => RvOK 
       show s.pc + 1 = _
       rw [hpc]; omega
     rw [e]
-    exact exec_ret hsim rfl hc.tail.head ret rest hK .none
+    exact exec_ret hsim rfl hc.tail.head ret rest evc hK .none
   | some rv =>
     have hv : RvOK rv := hv
     simp only [execStmt] at h
@@ -93,7 +93,7 @@ theorem stmt_ret (f : Nat) (v : Option Rv) (hv : match v with | some rv => RvOK 
       subst h
       obtain ⟨rfl, hex⟩ := exec_toResult rv hv sim hpc hc.left hev
       refine hex.trans fun t ⟨ht, _⟩ => ?_
-      exact exec_ret ht.2 ht.1 hc.right.head ret rest hK x
+      exact exec_ret ht.2 ht.1 hc.right.head ret rest evc hK x
     · rename_i o' hev
       simp only [Prod.mk.injEq] at h
       have := evalRv_error hv f σ _ hev
@@ -215,20 +215,20 @@ theorem leaf_not_ret (f : Nat) (st : Stmt) (hst : FragStmt st) (σ σ' : S)
 def StmtsRet (img : Image) (K : Ctx) (f : Nat) : Prop := ∀ st, FragStmt st → StmtRet img K st f
 
 def BlockRet (img : Image) (K : Ctx) (f : Nat) : Prop :=
-  ∀ b, FragBlock b → ∀ (σ σ' : S) (s : State) (pc exit : Nat) (stk : List Frame),
+  ∀ b, FragBlock b → ∀ (σ σ' : S) (s : State) (pc exit : Nat) (stk : Stk),
     Sim K stk σ s → s.pc = (pc : Int) → CodeAt img pc (resolve (genBlock b) pc exit) →
     execBlock f b σ = (.ret, σ') → Exec img s (RetPost K σ')
 
 def OperandRet (img : Image) (K : Ctx) (f : Nat) : Prop :=
   ∀ (k : ActKind) (op : Operand_), FragOperand op →
-  ∀ (σ σ' : S) (s : State) (pc exit : Nat) (stk : List Frame),
+  ∀ (σ σ' : S) (s : State) (pc exit : Nat) (stk : Stk),
     Sim K stk σ s → s.pc = (pc : Int) →
     CodeAt img pc (resolve (genOperand op ++ ins [opcodeOf k]) pc exit) →
     execOperand f k op σ = (.ret, σ') → Exec img s (RetPost K σ')
 
 def OperandsRet (img : Image) (K : Ctx) (f : Nat) : Prop :=
   ∀ (k : ActKind) (ops : Operands), FragOperands ops →
-  ∀ (σ σ' : S) (s : State) (pc exit : Nat) (stk : List Frame),
+  ∀ (σ σ' : S) (s : State) (pc exit : Nat) (stk : Stk),
     Sim K stk σ s → s.pc = (pc : Int) →
     CodeAt img pc (resolve (genOperands k ops) pc exit) →
     execOperands f k ops σ = (.ret, σ') → Exec img s (RetPost K σ')
@@ -359,9 +359,9 @@ theorem loopBody_ret {r : Outcome × S} {Kf : S → Outcome × S} {σ' : S}
 
 def WhileRet (img : Image) (K : Ctx) (f : Nat) : Prop :=
   ∀ (c : Option Rv) (body : Block), CondOK c → FragBlock body →
-  ∀ (σ σ' : S) (s : State) (top : Nat) (stk : List Frame)
-    (vars : List (LoopVar × Val)) (ht : Nat) (off : Int),
-    Sim K (.loop vars ht :: stk) σ s → s.pc = (top : Int) →
+  ∀ (σ σ' : S) (s : State) (top : Nat) (stk : Stk)
+    (vars : List (LoopVar × Val)) (extra : List Val) (off : Int),
+    Sim K (stk.inner vars extra) σ s → s.pc = (top : Int) →
     CodeAt img top (testCode c ++ [.jump .ifFalse (((genBlock body).length : Nat) + 2)] ++
       resolve (genBlock body) (top + (testCode c).length + 1)
         ((top + (testCode c).length + 1 + (genBlock body).length + 1 : Nat) : Int) ++
@@ -370,12 +370,12 @@ def WhileRet (img : Image) (K : Ctx) (f : Nat) : Prop :=
     execWhile f c body σ = (.ret, σ') → Exec img s (RetPost K σ')
 
 theorem while_ret_zero : WhileRet img K 0 := by
-  intro c body _ _ σ σ' s top stk vars ht off _ _ _ _ h
+  intro c body _ _ σ σ' s top stk vars extra off _ _ _ _ h
   simp [execWhile] at h
 
 theorem while_ret_step (f : Nat) (ihB : BlockGoal img K f) (ihBR : BlockRet img K f)
     (ihW : WhileRet img K f) : WhileRet img K (f + 1) := by
-  intro c body hcnd hb σ σ' s top stk vars ht off sim hpc hc hoff h
+  intro c body hcnd hb σ σ' s top stk vars extra off sim hpc hc hoff h
   rw [execWhile_succ] at h
   have hct := hc.left.left.left.left
   have hcj := hc.left.left.left.right.head
@@ -389,9 +389,9 @@ theorem while_ret_step (f : Nat) (ihB : BlockGoal img K f) (ihBR : BlockRet img 
   · simp at h
   · rename_i s1 he
     obtain ⟨rfl, hex⟩ := exec_test c hcnd sim hpc hct he
-    have hjmp : ∀ t0, (At K (top + (testCode c).length) (.loop vars ht :: stk) [] s1 t0 ∧
+    have hjmp : ∀ t0, (At K (top + (testCode c).length) (stk.inner vars extra) [] s1 t0 ∧
         (t0.regs .result).truthy = true) →
-        Exec img t0 (At K (top + (testCode c).length + 1) (.loop vars ht :: stk) [] s1) := by
+        Exec img t0 (At K (top + (testCode c).length + 1) (stk.inner vars extra) [] s1) := by
       intro t0 ⟨ht0, hres⟩
       exact exec_jump .ifFalse _ _ (by simp) ht0.2 ht0.1 hcj (by simp [hres])
     refine (hex.trans hjmp).trans fun t1 ht1 => ?_
@@ -401,70 +401,82 @@ theorem while_ret_step (f : Nat) (ihB : BlockGoal img K f) (ihBR : BlockRet img 
       simp only [Target] at ht2
       refine (exec_jump .always off top (by simp) ht2.2 ht2.1 (idx hcjb) (by simpa using hoff)).trans
         fun t3 ht3 => ?_
-      exact ihW c body hcnd hb s2 σ' t3 top stk vars ht off ht3.2 ht3.1 hc hoff hrest
+      exact ihW c body hcnd hb s2 σ' t3 top stk vars extra off ht3.2 ht3.1 hc hoff hrest
     · exact ihBR body hb s1 σ' t1 _ _ _ ht1.2 ht1.1 (cat hcb) hbody
 
 def CountRet (img : Image) (K : Ctx) (f : Nat) : Prop :=
-  ∀ (body : Block), FragBlock body → ∀ (ix : Option (String × Val))
-    (σ σ' : S) (s : State) (top : Nat) (stk : List Frame)
-    (vars : List (LoopVar × Val)) (ht : Nat) (cnt : Val) (q : Rat) (fl : Bool) (off : Int),
-    Sim K (.loop vars ht :: stk) σ s → s.pc = (top : Int) →
-    getVar vars .counter = cnt → cnt.asNum = some (q, fl) → (∀ p ∈ ix, getVar vars .incr = p.2) →
+  ∀ (body : Block), FragBlock body → ∀ (lv : Option String) (ix : Option (String × Val))
+    (names : List String) (σ σ' : S) (s : State) (top : Nat) (stk : Stk)
+    (vars : List (LoopVar × Val)) (cnt : Val) (q : Rat) (fl : Bool) (off : Int),
+    Sim K (stk.inner vars (pendOf lv names)) σ s → s.pc = (top : Int) →
+    getVar vars .counter = cnt → cnt.asNum = some (q, fl) → passes q = names.length →
+    (∀ p ∈ ix, getVar vars .incr = p.2) →
     CodeAt img top (counterTest ++
-      [.jump .ifFalse (((genBlock body).length + (postOf ix).length : Nat) + 2)] ++
-      (resolve (genBlock body) (top + 5)
-        ((top + 5 + (genBlock body).length + (postOf ix).length + 1 : Nat) : Int) ++ postOf ix) ++
+      [.jump .ifFalse (((bodyPreOf lv).length + (genBlock body).length + (postOf ix).length : Nat) + 2)] ++
+      (bodyPreOf lv ++ resolve (genBlock body) (top + 5 + (bodyPreOf lv).length)
+        ((top + 5 + ((bodyPreOf lv).length + (genBlock body).length + (postOf ix).length) + 1 : Nat) : Int) ++
+        postOf ix) ++
       [.jump .always off] ++ [.endLoop]) →
-    ((top + 5 + (genBlock body).length + (postOf ix).length : Nat) : Int) + off = (top : Int) →
-    execPasses f (List.replicate (passes q) []) ix body σ = (.ret, σ') → Exec img s (RetPost K σ')
+    ((top + 5 + ((bodyPreOf lv).length + (genBlock body).length + (postOf ix).length) : Nat) : Int) + off =
+      (top : Int) →
+    execPasses f (bindsOf lv names) ix body σ = (.ret, σ') → Exec img s (RetPost K σ')
 
 theorem count_ret_zero : CountRet img K 0 := by
-  intro body _ ix σ σ' s top stk vars ht cnt q fl off _ _ _ _ _ _ _ h
+  intro body _ lv ix names σ σ' s top stk vars cnt q fl off _ _ _ _ _ _ _ _ h
   simp [execPasses] at h
 
 theorem count_ret_step (f : Nat) (ihB : BlockGoal img K f) (ihBR : BlockRet img K f)
     (ihC : CountRet img K f) : CountRet img K (f + 1) := by
-  intro body hb ix σ σ' s top stk vars ht cnt q fl off sim hpc hcnt hnum hincr hc hoff h
+  intro body hb lv ix names σ σ' s top stk vars cnt q fl off sim hpc hcnt hnum hlenq hincr hc hoff h
   have hct := hc.left.left.left.left
   have hcj := hc.left.left.left.right.head
-  have hcb := hc.left.left.right.left
+  have hcpre := hc.left.left.right.left.left
+  have hcb := hc.left.left.right.left.right
   have hcp := hc.left.left.right.right
   have hcjb := hc.left.right.head
   have hlen : counterTest.length = 4 := rfl
   simp only [List.length_append, List.length_cons, List.length_nil, resolve_length, hlen]
-    at hcj hcb hcp hcjb
+    at hcj hcpre hcb hcp hcjb
   have hne : cnt = .none → False := by rintro rfl; simp [Val.asNum] at hnum
-  have hex := exec_counterTest vars ht cnt q fl sim hpc hct hcnt hnum
-  by_cases hq : 0 < q
-  · rw [passes_pos q hq, List.replicate_succ, execPasses_succ] at h
-    simp only [List.foldl_nil] at h
-    have hjmp : ∀ t0, (At K (top + 4) (.loop vars ht :: stk) [] σ t0 ∧
+  have hex := exec_counterTest vars _ cnt q fl sim hpc hct hcnt hnum
+  cases names with
+  | cons n rest =>
+    have hq : 0 < q := by
+      apply Classical.byContradiction
+      intro hc'
+      rw [passes_nonpos q hc'] at hlenq
+      simp at hlenq
+    rw [bindsOf_cons, execPasses_succ, foldl_bind] at h
+    have hjmp : ∀ t0, (At K (top + 4) (stk.inner vars (pendOf lv (n :: rest))) [] σ t0 ∧
         t0.regs .result = .bool (decide (0 < q))) →
-        Exec img t0 (At K (top + 5) (.loop vars ht :: stk) [] σ) := by
+        Exec img t0 (At K (top + 5) (stk.inner vars (pendOf lv (n :: rest))) [] σ) := by
       intro t0 ⟨ht0, hres⟩
       exact exec_jump .ifFalse _ _ (by simp) ht0.2 ht0.1 (idx hcj)
         (by simp [hres, hq, Val.truthy]; omega)
-    refine (hex.trans hjmp).trans fun t1 ht1 => ?_
+    refine ((hex.trans hjmp).trans fun t0 ht0 =>
+      exec_bodyPre lv n rest vars ht0.2 ht0.1 (hcpre.cast (by omega))).trans fun t1 ht1 => ?_
     rcases loopBody_ret h with ⟨s2, hbody, hrest⟩ | hbody
     · obtain ⟨s3, hnext, hrest⟩ := (stepIdx_cases hrest).resolve_right (by simp)
       obtain ⟨c1, fl1, hsub1, hc1⟩ := sub_one_num cnt q fl hnum
-      refine (ihB body hb σ s2 .normal t1 _ _ _ ht1.2 ht1.1 (cat hcb) hbody (Or.inl rfl)).trans
+      refine (ihB body hb _ s2 .normal t1 _ _ _ ht1.2 ht1.1 (hcb.cast (by omega)) hbody (Or.inl rfl)).trans
         fun t2 ht2 => ?_
       simp only [Target] at ht2
-      refine (exec_passEnd ix vars ht cnt c1 s2 s3 ht2.2 ht2.1 (cat hcp) hcnt hne hsub1 hincr hnext).trans
-        fun t3 ht3 => ?_
-      refine (exec_jump .always off top (by simp) ht3.2 ht3.1 (idx hcjb) (by simpa using hoff)).trans
-        fun t4 ht4 => ?_
-      exact ihC body hb ix s3 σ' t4 top stk _ ht c1 (q - 1) fl1 off ht4.2 ht4.1
-        (getVar_putVar vars .counter c1) hc1
+      refine (exec_passEnd ix vars _ cnt c1 s2 s3 ht2.2 ht2.1 (hcp.cast (by omega)) hcnt hne hsub1 hincr
+        hnext).trans fun t3 ht3 => ?_
+      refine (exec_jump .always off top (by simp) ht3.2 ht3.1 (idx hcjb)
+        (by rw [← hoff]; congr 2; omega)).trans fun t4 ht4 => ?_
+      have hlen' : passes (q - 1) = rest.length := by
+        rw [passes_pos q hq] at hlenq
+        simpa using hlenq
+      exact ihC body hb lv ix rest s3 σ' t4 top stk _ c1 (q - 1) fl1 off ht4.2 ht4.1
+        (getVar_putVar vars .counter c1) hc1 hlen'
         (fun p hp => by rw [getVar_putVar_other _ _ _ _ (by decide)]; exact hincr p hp) hc hoff hrest
-    · exact ihBR body hb σ σ' t1 _ _ _ ht1.2 ht1.1 (cat hcb) hbody
-  · rw [passes_nonpos q hq] at h
-    simp [execPasses] at h
+    · exact ihBR body hb _ σ' t1 _ _ _ ht1.2 ht1.1 (hcb.cast (by omega)) hbody
+  | nil => simp [bindsOf, execPasses] at h
 
 def LoopRet (img : Image) (K : Ctx) (f : Nat) : Prop :=
   ∀ (hd : LoopHdr) (body : Block), LoopHdrOK hd → FragBlock body →
-  ∀ (σ σ' : S) (s : State) (pc exit : Nat) (stk : List Frame),
+  ∀ (σ σ' : S) (s : State) (pc exit : Nat) (stk : Stk),
     Sim K stk σ s → s.pc = (pc : Int) →
     CodeAt img pc (resolve (genLoop hd (genBlock body)) pc exit) →
     execLoop f hd body σ = (.ret, σ') → Exec img s (RetPost K σ')
@@ -475,7 +487,7 @@ theorem loop_ret_zero : LoopRet img K 0 := by
 
 
 theorem loop_while_ret (f : Nat) (ihW : WhileRet img K f) (c : Option Rv) (hcnd : CondOK c) (body : Block)
-    (hb : FragBlock body) (σ σ' : S) (s : State) (pc exit : Nat) (stk : List Frame)
+    (hb : FragBlock body) (σ σ' : S) (s : State) (pc exit : Nat) (stk : Stk)
     (sim : Sim K stk σ s) (hpc : s.pc = (pc : Int))
     (hc : CodeAt img pc (resolve (assembleLoop [] (testCode c) [] (genBlock body) []) pc exit))
     (h : execWhile f c body σ = (.ret, σ')) : Exec img s (RetPost K σ') := by
@@ -496,26 +508,29 @@ theorem loop_while_ret (f : Nat) (ihW : WhileRet img K f) (c : Option Rv) (hcnd 
     rw [e1, e2] at h2
     exact h2
   refine (exec_loop sim hpc hloop).trans fun t ht => ?_
-  exact ihW c body hcnd hb σ σ' t (pc + 1) stk [] 0 _ ht.2 ht.1 hrest (by omega) h
+  exact ihW c body hcnd hb σ σ' t (pc + 1) stk [] [] _ ht.2 ht.1 hrest (by omega) h
 
 /-- `return` out of a counted loop -/
-theorem loop_counted_ret (f : Nat) (ihC : CountRet img K f) (pre : List Instr) (ix : Option (String × Val))
-    (body : Block) (hb : FragBlock body) (k : Nat) (σ σ1 σ' : S) (s : State) (pc exit : Nat)
-    (stk : List Frame) (sim : Sim K stk σ s) (hpc : s.pc = (pc : Int))
-    (hc : CodeAt img pc (resolve (assembleLoop pre counterTest [] (genBlock body) (postOf ix)) pc exit))
-    (hpre : CodeAt img (pc + 1) pre → ∀ t, At K (pc + 1) (.loop [] 0 :: stk) [] σ t →
-      Exec img t (fun t' => ∃ vars cnt q fl, At K (pc + 1 + pre.length) (.loop vars 0 :: stk) [] σ1 t' ∧
+theorem loop_counted_ret (f : Nat) (ihC : CountRet img K f) (pre : List Instr) (lv : Option String)
+    (ix : Option (String × Val)) (body : Block) (hb : FragBlock body) (names : List String)
+    (σ σ1 σ' : S) (s : State) (pc exit : Nat)
+    (stk : Stk) (sim : Sim K stk σ s) (hpc : s.pc = (pc : Int))
+    (hc : CodeAt img pc (resolve (assembleLoop pre counterTest (bodyPreOf lv) (genBlock body) (postOf ix))
+      pc exit))
+    (hpre : CodeAt img (pc + 1) pre → ∀ t, At K (pc + 1) (stk.inner [] []) [] σ t →
+      Exec img t (fun t' => ∃ vars cnt q fl,
+        At K (pc + 1 + pre.length) (stk.inner vars (pendOf lv names)) [] σ1 t' ∧
         getVar vars .counter = cnt ∧ cnt.asNum = some (q, fl) ∧ (∀ p ∈ ix, getVar vars .incr = p.2) ∧
-        passes q = k))
-    (h : execPasses f (List.replicate k []) ix body σ1 = (.ret, σ')) : Exec img s (RetPost K σ') := by
-  obtain ⟨hloop, hcpre, hrest⟩ := counted_rest pre ix body hc
+        passes q = names.length))
+    (h : execPasses f (bindsOf lv names) ix body σ1 = (.ret, σ')) : Exec img s (RetPost K σ') := by
+  obtain ⟨hloop, hcpre, hrest⟩ := counted_rest pre lv ix body hc
   refine ((exec_loop sim hpc hloop).trans (hpre hcpre)).trans
     fun t' ⟨vars, cnt, q, fl, ht', hcnt, hnum, hincr, hk⟩ => ?_
-  subst hk
-  exact ihC body hb ix σ1 σ' t' _ stk vars 0 cnt q fl _ ht'.2 ht'.1 hcnt hnum hincr hrest (by omega) h
+  exact ihC body hb lv ix names σ1 σ' t' _ stk vars cnt q fl _ ht'.2 ht'.1 hcnt hnum hk hincr hrest
+    (by omega) h
 
 theorem loop_count_ret (f : Nat) (ihC : CountRet img K f) (n : Rv) (hn : RvOK n) (body : Block)
-    (hb : FragBlock body) (σ σ' : S) (s : State) (pc exit : Nat) (stk : List Frame)
+    (hb : FragBlock body) (σ σ' : S) (s : State) (pc exit : Nat) (stk : Stk)
     (sim : Sim K stk σ s) (hpc : s.pc = (pc : Int))
     (hc : CodeAt img pc (resolve (genLoop (.count n) (genBlock body)) pc exit))
     (h : execLoop (f + 1) (.count n) body σ = (.ret, σ')) : Exec img s (RetPost K σ') := by
@@ -529,15 +544,17 @@ theorem loop_count_ret (f : Nat) (ihC : CountRet img K f) (n : Rv) (hn : RvOK n)
     split at h
     · rename_i q hq
       obtain ⟨fl, hnum⟩ := numToCount_num hq
-      refine loop_counted_ret f ihC _ none body hb _ σ σ1 σ' s pc exit stk sim hpc hc ?_ h
+      rw [passCount_eq, ← bindsOf_none] at h
+      refine loop_counted_ret f ihC _ none none body hb _ σ σ1 σ' s pc exit stk sim hpc hc ?_ h
       intro hcpre t ht
-      obtain ⟨rfl, hcnt⟩ := exec_toCounter n hn [] 0 ht.2 ht.1 hcpre he
-      exact hcnt.mono fun t' ht' => ⟨_, x, q, fl, ht', getVar_putVar [] .counter x, hnum, by simp, rfl⟩
+      obtain ⟨rfl, hcnt⟩ := exec_toCounter n hn [] _ ht.2 ht.1 hcpre he
+      exact hcnt.mono fun t' ht' => ⟨_, x, q, fl, ht', getVar_putVar [] .counter x, hnum, by simp,
+        (passes_replicate _).symm⟩
     · simp at h
 
 theorem loop_range_ret (f : Nat) (ihC : CountRet img K f) (v : String) (a b : Rv) (ha : RvOK a) (hbd : RvOK b)
     (body : Block) (hb : FragBlock body) (σ σ' : S) (s : State) (pc exit : Nat)
-    (stk : List Frame) (sim : Sim K stk σ s) (hpc : s.pc = (pc : Int))
+    (stk : Stk) (sim : Sim K stk σ s) (hpc : s.pc = (pc : Int))
     (hc : CodeAt img pc (resolve (genLoop (.range v a b) (genBlock body)) pc exit))
     (h : execLoop (f + 1) (.range v a b) body σ = (.ret, σ')) : Exec img s (RetPost K σ') := by
   simp only [genLoop] at hc
@@ -554,13 +571,14 @@ theorem loop_range_ret (f : Nat) (ihC : CountRet img K f) (v : String) (a b : Rv
     · rename_i y σ2 heb
       split at h
       · rename_i p q hp hq
-        refine loop_counted_ret f ihC _ (some (v, if q < p then .int (-1) else .int 1)) body hb _ σ
+        rw [passCount_eq, ← bindsOf_none] at h
+        refine loop_counted_ret f ihC _ none (some (v, if q < p then .int (-1) else .int 1)) body hb _ σ
           (σ2.assign v x) σ' s pc exit stk sim hpc hc ?_ h
         intro hcpre t ht
         simp only [indexVarRange, if_true] at hcpre ⊢
-        obtain ⟨rfl, hex1⟩ := exec_toLoopVar a ha .first [] 0 ht.2 ht.1 hcpre.left.left.left hea
+        obtain ⟨rfl, hex1⟩ := exec_toLoopVar a ha .first [] _ ht.2 ht.1 hcpre.left.left.left hea
         refine hex1.trans fun t1 ht1 => ?_
-        obtain ⟨rfl, hex2⟩ := exec_toLoopVar b hbd .last _ 0 ht1.2 ht1.1 hcpre.left.left.right heb
+        obtain ⟨rfl, hex2⟩ := exec_toLoopVar b hbd .last _ _ ht1.2 ht1.1 hcpre.left.left.right heb
         refine hex2.trans fun t2 ht2 => ?_
         have hfirst : getVar (putVar (putVar [] .first x) .last y) .first = x := by
           rw [getVar_putVar_other _ _ _ _ (by decide), getVar_putVar]
@@ -573,7 +591,7 @@ theorem loop_range_ret (f : Nat) (ihC : CountRet img K f) (v : String) (a b : Rv
         simp only [List.length_append, List.length_cons, List.length_nil] at hcc
         refine (exec_calcCounter x y p q ht3.2 ht3.1 (cat hcc) hfirst hlast hp hq).mono
           fun t4 ⟨vars', fl, ht4, hcnt, hinc⟩ => ?_
-        refine ⟨vars', _, _, fl, ⟨?_, ht4.2⟩, rfl, hcnt, ?_, rfl⟩
+        refine ⟨vars', _, _, fl, ⟨?_, ht4.2⟩, rfl, hcnt, ?_, (passes_replicate _).symm⟩
         · rw [ht4.1]; simp [calcCounter, testOp, incCounter]; omega
         · intro p' hp'
           simp only [Option.mem_def, Option.some.injEq] at hp'
@@ -583,7 +601,7 @@ theorem loop_range_ret (f : Nat) (ihC : CountRet img K f) (v : String) (a b : Rv
 
 theorem loop_with_ret (f : Nat) (ihC : CountRet img K f) (n : Rv) (hn : RvOK n) (wc : WithClause)
     (hw : WithOK wc) (body : Block) (hb : FragBlock body) (σ σ' : S) (s : State)
-    (pc exit : Nat) (stk : List Frame) (sim : Sim K stk σ s) (hpc : s.pc = (pc : Int))
+    (pc exit : Nat) (stk : Stk) (sim : Sim K stk σ s) (hpc : s.pc = (pc : Int))
     (hc : CodeAt img pc (resolve (assembleLoop (genRv n (.to counter) ++ withCode wc) counterTest []
       (genBlock body) (loopPost (some (withVarOf wc)))) pc exit))
     (h : (match evalRv f n σ with
@@ -613,14 +631,15 @@ theorem loop_with_ret (f : Nat) (ihC : CountRet img K f) (n : Rv) (hn : RvOK n) 
         exact ((evalWith_error hw f cnt σ1 _ hew).2.2 h.1).elim
       · simp at h
       · rename_i i σ2 hew
-        refine loop_counted_ret f ihC _ (some (withVarOf wc, i)) body hb _ σ σ2 σ' s pc exit stk sim hpc hc
+        rw [passCount_eq, ← bindsOf_none] at h
+        refine loop_counted_ret f ihC _ none (some (withVarOf wc, i)) body hb _ σ σ2 σ' s pc exit stk sim hpc hc
           ?_ h
         intro hcpre t ht
-        obtain ⟨rfl, hcnt⟩ := exec_toCounter n hn [] 0 ht.2 ht.1 hcpre.left he
+        obtain ⟨rfl, hcnt⟩ := exec_toCounter n hn [] _ ht.2 ht.1 hcpre.left he
         refine hcnt.trans fun t1 ht1 => ?_
         refine (exec_with wc hw cnt q fl ht1.2 ht1.1 hcpre.right (getVar_putVar [] .counter cnt) hnum hew).mono
           fun t2 ⟨vars', ht2, hc2, hi2⟩ => ?_
-        refine ⟨vars', cnt, q, fl, ⟨?_, ht2.2⟩, hc2, hnum, ?_, rfl⟩
+        refine ⟨vars', cnt, q, fl, ⟨?_, ht2.2⟩, hc2, hnum, ?_, (passes_replicate _).symm⟩
         · rw [ht2.1]; simp only [List.length_append]; congr 1; omega
         · intro p' hp'
           simp only [Option.mem_def, Option.some.injEq] at hp'
@@ -703,7 +722,7 @@ theorem evalArgs_simple : ∀ (f : Nat) (ps : List String) (as : Args), SimpleAr
             · simp at h
 
 
-theorem semVal_read {stk : List Frame} {un : List Val} {σ : S} {s : State} (h : SimU K stk un σ s)
+theorem semVal_read {stk : Stk} {un : List Val} {σ : S} {s : State} (h : SimU K stk un σ s)
     {a : Rv} (ha : SimpleArg a) (hn : a ≠ .reg .result) : s.read a.src = semVal σ a := by
   cases ha with
   | lit v => rfl
@@ -714,7 +733,7 @@ theorem semVal_read {stk : List Frame} {un : List Val} {σ : S} {s : State} (h :
 
 /-- the machine's `PARAM` sequence builds the source-level dictionary when the parameter names
 are distinct -/
-theorem bindRead_eq {stk : List Frame} {un : List Val} {σ : S} {s : State} (h : SimU K stk un σ s) :
+theorem bindRead_eq {stk : Stk} {un : List Val} {σ : S} {s : State} (h : SimU K stk un σ s) :
     ∀ (ps : List String) (as : Args), SimpleArgs as → NoResultReg as → ps.Nodup →
     ∀ (d : Dict), (∀ p ∈ ps, d.any (·.1 == p) = false) →
       bindRead s ps as d = d ++ semArgs σ ps as := by
@@ -751,23 +770,26 @@ def RoutinesAt (img : Image) (R : List (String × Sem.Routine)) : Prop :=
 
 /-- back in the caller after a `return` -/
 theorem RetPost.toSim {K Kc : Ctx} {σ2 : S} {t : State} (h : RetPost K σ2 t) (ret : Nat)
-    (stkc : List Frame) (loc : Option Dict) (hK : K.ret = some (ret, stkc ++ baseOf Kc loc))
-    (hloc : Kc.ret.isSome = loc.isSome) (hrt : Kc.routines = K.routines) (hl : LoopsOnly stkc) :
+    (stkc : Stk) (loc : Option Dict) (hK : K.ret = some (ret, stkc.frames ++ baseOf Kc loc, stkc.ev))
+    (hloc : Kc.ret.isSome = loc.isSome) (hrt : Kc.routines = K.routines) (hl : LoopsOnly stkc.frames)
+    (hok : EvOk Kc.base stkc.frames stkc.ev) :
     At Kc (ret + 1) stkc [] { σ2 with locals := loc, result := .none } t := by
-  obtain ⟨r', rest', hK', hpc, hst⟩ := h.ctx
+  obtain ⟨r', rest', evc', hK', hpc, hst⟩ := h.ctx
+  have hbase : K.base = stkc.ev := by simp only [Ctx.base, hK]
   rw [hK] at hK'
   simp only [Option.some.injEq, Prod.mk.injEq] at hK'
-  obtain ⟨rfl, rfl⟩ := hK'
-  exact ⟨hpc, h.running, hst, hl, h.eval, h.unnamed, ⟨hloc, by rw [hrt]; exact h.routines⟩, h.status, h.umode,
+  obtain ⟨rfl, rfl, rfl⟩ := hK'
+  exact ⟨hpc, h.running, hst, hl, by rw [h.eval, hbase], hok, h.unnamed, ⟨hloc, by rw [hrt]; exact h.routines⟩,
+    h.status, h.umode,
     h.globals, h.constants, h.lights, h.trace, h.defaultColor, h.matrix, h.draws, h.regs⟩
 
 /-- `END name`: the routine's code ran to its end -/
-theorem exec_end {stk : List Frame} {σ : S} {s : State} {pc : Nat} (h : Sim K stk σ s)
+theorem exec_end {stk : Stk} {σ : S} {s : State} {pc : Nat} (h : Sim K stk σ s)
     (hpc : s.pc = (pc : Int)) (nm : String) (hi : img.code[pc]? = some (.end_ nm)) (ret : Nat)
-    (rest : List Frame) (hK : K.ret = some (ret, rest)) :
-    Exec img s (fun t => t.pc = (ret : Int) ∧ t.stack = rest ∧ t.status = .running ∧ t.eval = [] ∧
+    (rest : List Frame) (evc : List Val) (hK : K.ret = some (ret, rest, evc)) :
+    Exec img s (fun t => t.pc = (ret : Int) ∧ t.stack = rest ∧ t.status = .running ∧ t.eval = K.base ∧
       t.unnamed = [] ∧ σ.routines = K.routines ∧ σ.vm.status = .running ∧
-      (∃ m, σ.vm.regs .unitMode = .mode m) ∧ σ.vm.globals = t.globals ∧
+      RegsOk σ.vm.regs ∧ σ.vm.globals = t.globals ∧
       σ.vm.constants = t.constants ∧ σ.vm.lights = t.lights ∧ σ.vm.trace = t.trace ∧
       σ.vm.defaultColor = t.defaultColor ∧ σ.vm.matrix = t.matrix ∧ σ.vm.draws = t.draws ∧
       ∀ r, r ≠ .result → σ.vm.regs r = t.regs r) := by
@@ -776,20 +798,20 @@ theorem exec_end {stk : List Frame} {σ : S} {s : State} {pc : Nat} (h : Sim K s
   cases hl : σ.locals with
   | none => rw [hl] at hloc; simp at hloc
   | some d =>
-    have hst : s.stack = stk ++ .call d ret :: rest := by
+    have hst : s.stack = stk.frames ++ .call d ret :: rest := by
       rw [h.stack, hl]; simp only [baseOf, hK]
-    have hret := C03_return_any_depth s stk d ret rest h.loops hst
-    have hret' : s.doReturn = { s with stack := rest, pc := (ret : Int), eval := [] } := by
+    have hret := C03_return_any_depth s stk.frames d ret rest h.loops hst
+    have hret' : s.doReturn = { s with stack := rest, pc := (ret : Int), eval := K.base } := by
       rw [hret]
       apply State.ext' <;> try rfl
-      show (match stk.getLast? with
+      show (match stk.frames.getLast? with
         | some (.loop _ hh) => trimEval s.eval hh
-        | _ => s.eval) = []
+        | _ => s.eval) = K.base
       rw [h.eval]
-      split <;> simp [trimEval]
+      exact h.evok.unwind
     apply Exec.step h.running
     apply Exec.done
-    have : step img s = { s with stack := rest, pc := (ret : Int), eval := [] } := by
+    have : step img s = { s with stack := rest, pc := (ret : Int), eval := K.base } := by
       unfold step
       have h0 : ¬ (s.pc < 0) := by omega
       have h1 : s.pc.toNat = pc := by omega
@@ -802,8 +824,8 @@ theorem exec_end {stk : List Frame} {σ : S} {s : State} {pc : Nat} (h : Sim K s
 
 
 /-- the context of a callee: it returns to `ret`, above the caller's whole stack -/
-def calleeCtx (K : Ctx) (ret : Nat) (callerStack : List Frame) : Ctx :=
-  ⟨some (ret, callerStack), K.routines⟩
+def calleeCtx (K : Ctx) (ret : Nat) (callerStack : List Frame) (callerEval : List Val) : Ctx :=
+  ⟨some (ret, callerStack, callerEval), K.routines⟩
 
 /-- a call of a user routine with simple arguments: calling sequence, body (to its end or to a
 `return`, from any loop depth), back in the caller -/
@@ -813,7 +835,7 @@ theorem call_user (f : Nat) (ihB : ∀ r st, BlockGoal img ⟨some (r, st), K.ro
     (hnd : ps.Nodup) (rt : Sem.Routine) (hfrag : FragBlock rt.body) (addr : Nat) (nm : String)
     (haddr : img.routine? g = some addr)
     (hbody : CodeAt img addr (resolve (genBlock rt.body) addr (0 : Nat) ++ [.end_ nm]))
-    (σ s2 : S) (o2 : Outcome) (s : State) (pc : Nat) (stk : List Frame)
+    (σ s2 : S) (o2 : Outcome) (s : State) (pc : Nat) (stk : Stk)
     (sim : Sim K stk σ s) (hpc : s.pc = (pc : Int)) (hc : CodeAt img pc (genCall g ps as))
     (hex : execBlock f rt.body { σ with locals := some (semArgs σ ps as), result := .none } = (o2, s2))
     (ho2 : o2 = .normal ∨ o2 = .ret) :
@@ -824,44 +846,44 @@ theorem call_user (f : Nat) (ihB : ∀ r st, BlockGoal img ⟨some (r, st), K.ro
   rw [bindArgs_eq_bindRead s as has hnr, bindRead_eq sim ps as has hnr hnd [] (by simp)] at hrun
   simp only [List.nil_append] at hrun
   -- the callee's context and the relation at the routine's entry
-  have hsimc : Sim (calleeCtx K (pc + (genCall g ps as).length - 1) s.stack) []
+  have hsimc : Sim (calleeCtx K (pc + (genCall g ps as).length - 1) s.stack stk.ev) ⟨[], stk.ev⟩
       { σ with locals := some (semArgs σ ps as), result := .none }
       (run img ((genCall g ps as).length - 1) s) := by
     rw [hrun]
-    exact ⟨sim.running, by simp [baseOf, calleeCtx], LoopsOnly.nil, sim.eval, sim.unnamed,
+    exact ⟨sim.running, by simp [baseOf, calleeCtx], LoopsOnly.nil, sim.eval, EvOk.nil, sim.unnamed,
       ⟨rfl, sim.locals.2⟩, sim.status, sim.umode, sim.globals, sim.constants, sim.lights, sim.trace,
       sim.defaultColor, sim.matrix, sim.draws, fun r hr => by simp only [if_neg hr]; exact sim.regs r hr⟩
   have hpcc : (run img ((genCall g ps as).length - 1) s).pc = (addr : Int) := by rw [hrun]
-  have hentry : Exec img s (At (calleeCtx K (pc + (genCall g ps as).length - 1) s.stack) addr [] []
+  have hentry : Exec img s (At (calleeCtx K (pc + (genCall g ps as).length - 1) s.stack stk.ev) addr ⟨[], stk.ev⟩ []
       { σ with locals := some (semArgs σ ps as), result := .none }) :=
     ⟨(genCall g ps as).length - 1, hpcc, hsimc⟩
   refine hentry.trans fun t ht => ?_
-  have hstk : s.stack = stk ++ baseOf K σ.locals := sim.stack
+  have hstk : s.stack = stk.frames ++ baseOf K σ.locals := sim.stack
   have hcb : CodeAt img addr (resolve (genBlock rt.body) addr (0 : Nat)) := hbody.left
   have hce : img.code[addr + (genBlock rt.body).length]? = some (.end_ nm) := by
     have := hbody.right.head
     rwa [resolve_length] at this
   rcases ho2 with rfl | rfl
   · -- the body runs to its end
-    refine ((ihB (pc + (genCall g ps as).length - 1) s.stack) rt.body hfrag _ s2 .normal t addr 0 [] ht.2 ht.1 hcb hex (Or.inl rfl)).trans
+    refine ((ihB (pc + (genCall g ps as).length - 1) (s.stack, stk.ev)) rt.body hfrag _ s2 .normal t addr 0 ⟨[], stk.ev⟩ ht.2 ht.1 hcb hex (Or.inl rfl)).trans
       fun t1 ht1 => ?_
     simp only [Target] at ht1
-    refine (exec_end ht1.2 ht1.1 nm hce (pc + (genCall g ps as).length - 1) s.stack rfl).trans
+    refine (exec_end ht1.2 ht1.1 nm hce (pc + (genCall g ps as).length - 1) s.stack stk.ev rfl).trans
       fun t2 ht2 => ?_
     obtain ⟨h1, h2, h3, h4, h5, h6, h7, hum, h8, h9, h10, h11, h12, h13, h14, h15⟩ := ht2
     apply Exec.step h3
     apply Exec.done
     rw [step_eq _ t2 h3 h1 hendctx rfl (by simp only [execInstr]) h3]
-    refine ⟨?_, h3, ?_, sim.loops, h4, h5, ⟨sim.locals.1, h6⟩, h7, hum, h8, h9, h10, h11, h12, h13, h14, h15⟩
+    refine ⟨?_, h3, ?_, sim.loops, h4, sim.evok, h5, ⟨sim.locals.1, h6⟩, h7, hum, h8, h9, h10, h11, h12, h13, h14, h15⟩
     · show t2.pc + 1 = _
       rw [h1]; omega
     · show t2.stack = _
       rw [h2, hstk]
   · -- the body returns
-    refine ((ihBR (pc + (genCall g ps as).length - 1) s.stack) rt.body hfrag _ s2 t addr 0 [] ht.2 ht.1
+    refine ((ihBR (pc + (genCall g ps as).length - 1) (s.stack, stk.ev)) rt.body hfrag _ s2 t addr 0 ⟨[], stk.ev⟩ ht.2 ht.1
       hcb hex).mono fun t1 ht1 => ?_
     have := ht1.toSim (Kc := K) (pc + (genCall g ps as).length - 1) stk σ.locals
-      (by rw [hstk]) sim.locals.1 rfl sim.loops
+      (by rw [hstk]) sim.locals.1 rfl sim.loops sim.evok
     have e : pc + (genCall g ps as).length - 1 + 1 = pc + (genCall g ps as).length := by omega
     rw [e] at this
     exact this
@@ -892,7 +914,7 @@ as a draw) -/
 theorem call_builtin (g : String) (ps : List String) (as : Args) (has : SimpleArgs as)
     (hnr : NoResultReg as) (hnd : ps.Nodup) (hnone : img.routine? g = none) (names : List String)
     (hbp : builtinParams g = some names) (v : Val)
-    (σ : S) (s : State) (pc : Nat) (stk : List Frame)
+    (σ : S) (s : State) (pc : Nat) (stk : Stk)
     (sim : Sim K stk σ s) (hpc : s.pc = (pc : Int)) (hc : CodeAt img pc (genCall g ps as))
     (hval : callBuiltin g (names.map fun n => ((semArgs σ ps as).get n).getD .none) σ.vm.draws = .val v) :
     Exec img s (At K (pc + (genCall g ps as).length) stk []
@@ -932,7 +954,7 @@ theorem call_builtin (g : String) (ps : List String) (as : Args) (has : SimpleAr
     (step_eq (pc := pc + 1 + (genParams ps as).length + 1) _ _ (by exact sim.running) (by simp) hend rfl
       rfl (by exact sim.running)) ?_
   apply Exec.done
-  refine ⟨?_, sim.running, sim.stack, sim.loops, sim.eval, sim.unnamed, sim.locals, ?_, ?_, ?_, ?_, ?_, ?_,
+  refine ⟨?_, sim.running, sim.stack, sim.loops, sim.eval, sim.evok, sim.unnamed, sim.locals, ?_, ?_, ?_, ?_, ?_, ?_,
     ?_, ?_, ?_, ?_⟩
   · show ((pc + 1 + (genParams ps as).length : Nat) : Int) + 1 + 1 = _
     rw [hlen]; omega
@@ -1059,7 +1081,8 @@ theorem stmts_ret_zero : StmtsRet img K 0 := by
 
 /-- `return` reaches out of every compound statement -/
 theorem stmts_ret_step (f : Nat) (ihBR : BlockRet img K f) (ihOs : OperandsRet img K f)
-    (ihL : LoopRet img K f) (ret : Nat) (rest : List Frame) (hK : K.ret = some (ret, rest)) :
+    (ihL : LoopRet img K f) (ret : Nat) (rest : List Frame) (evc : List Val)
+    (hK : K.ret = some (ret, rest, evc)) :
     StmtsRet img K (f + 1) := by
   intro st hst σ σ' s pc exit stk sim hpc hc h
   rcases leaf_not_ret f st hst σ σ' h with ⟨c, t, e, rfl⟩ | ⟨hd, b, rfl⟩ | ⟨k, ops, rfl⟩ | ⟨v, rfl⟩ |
@@ -1136,7 +1159,7 @@ theorem stmts_ret_step (f : Nat) (ihBR : BlockRet img K f) (ihOs : OperandsRet i
       exact ihOs k ops hst σ2 σ' t2 _ exit stk ht2.2 (by rw [ht2.1]; congr 1) hcr hrest
     · exact (device_ne_ret hw).elim
   · -- return
-    exact stmt_ret f v hst ret rest hK σ σ' s pc exit stk sim hpc hc h
+    exact stmt_ret f v hst ret rest evc hK σ σ' s pc exit stk sim hpc hc h
   · exact (call_not_ret (f + 1) g ps as hst.1 σ σ' h).elim
 
 
